@@ -1,38 +1,60 @@
-(* C06 — Revocation bitmaps round-trip and revoke exactly the requested indices. Statements only. *)
+(* C06 — Revocation bitmaps round-trip and revoke exactly the requested indices. Statements only.
+   A bitmap is a strictly increasing list of 32-bit indices (valid_set).  The roaring wire format is modelled
+   (Cred/Roaring.v); zlib is the only assumed layer: zc / zd with
+     Z1 zd (zc b) = Some b   Z2 zc b starts 0x78 0x9C   Z3 zc b is bytes   (all for byte strings b)   Z4 zd yields bytes. *)
 From Coq Require Import List NArith Bool.
-From IdV Require Import Lib.Base64 Doc.Doc Cred.Bitmap Proofs.Base64Proofs Proofs.BitmapProofs.
+From IdV Require Import Lib.Base64 Doc.Doc Cred.Bitmap Cred.Roaring Proofs.Base64Proofs Proofs.BitmapProofs Proofs.RoaringProofs Proofs.BitmapCodecProofs.
 Import ListNotations.
 Open Scope N_scope.
 
-(* every index set survives encoding into a service and decoding back (codec = flate2 + roaring, recorded per case) *)
+(* the roaring layer on its own: what serialize_into writes for a set, deserialize_slice reads back as that set *)
+Theorem C06_roaring_roundtrip : forall s, valid_set s -> rdecode (rser s) = Some s.
+Proof. exact rdecode_rser. Qed.
+Print Assumptions C06_roaring_roundtrip.
+
+(* whatever deserialize_slice accepts is a strictly increasing list of 32-bit indices, so it can be written again (no
+   accepted bitmap is unserialisable: the defect repaired by 42568e1) *)
+Theorem C06_roaring_accepts_only_sets : forall z s, rdecode z = Some s -> Forall byte_ok z -> valid_set s /\ rdecode (rser s) = Some s.
+Proof. intros z s E F. split; [apply (rdecode_valid _ _ E F)|apply (rdecode_reencodes _ _ E F)]. Qed.
+Print Assumptions C06_roaring_accepts_only_sets.
+
+Theorem C06_roaring_pinned_accepts_empty_container :
+  rdecode_conts [59; 48; 0; 0; 1; 0; 0; 2; 0; 0; 0] = Some [(0, [])] /\ has_empty_container [59; 48; 0; 0; 1; 0; 0; 2; 0; 0; 0] = true
+  /\ rdecode [59; 48; 0; 0; 1; 0; 0; 2; 0; 0; 0] = Some [].
+Proof. exact pinned_accepts_empty_container. Qed.
+Print Assumptions C06_roaring_pinned_accepts_empty_container.
+
+(* every index set survives encoding into a service and decoding back *)
 Theorem C06_service_roundtrip :
-  forall comp decomp, (forall s, decomp (comp s) = Some s) -> (forall s, exists r, comp s = 120 :: 156 :: r) -> (forall s, Forall byte_ok (comp s)) ->
-  forall id s, try_from_service decomp legacy_fixed (to_service comp id s) = Some s.
-Proof. exact service_roundtrip. Qed.
+  forall zc zd, (forall b, Forall byte_ok b -> zd (zc b) = Some b) -> (forall b, Forall byte_ok b -> exists r, zc b = 120 :: 156 :: r) ->
+  (forall b, Forall byte_ok b -> Forall byte_ok (zc b)) ->
+  forall id s, valid_set s -> try_from_service (decomp_r zd) legacy_fixed (to_service (comp_r zc) id s) = Some s.
+Proof. exact r_service_roundtrip. Qed.
 Print Assumptions C06_service_roundtrip.
 
 Theorem C06_legacy_form_decodes :
-  forall comp decomp, (forall s, decomp (comp s) = Some s) -> (forall s, exists r, comp s = 120 :: 156 :: r) -> (forall s, Forall byte_ok (comp s)) ->
-  forall s, deser64 decomp legacy_fixed (b64s_encode (ser64 comp s)) = Some s.
-Proof. exact legacy_decodes. Qed.
+  forall zc zd, (forall b, Forall byte_ok b -> zd (zc b) = Some b) -> (forall b, Forall byte_ok b -> exists r, zc b = 120 :: 156 :: r) ->
+  (forall b, Forall byte_ok b -> Forall byte_ok (zc b)) ->
+  forall s, valid_set s -> deser64 (decomp_r zd) legacy_fixed (b64s_encode (ser64 (comp_r zc) s)) = Some s.
+Proof. exact r_legacy_decodes. Qed.
 Print Assumptions C06_legacy_form_decodes.
 
 Theorem C06_revoke_exact :
-  forall comp decomp, (forall s, decomp (comp s) = Some s) -> (forall s, exists r, comp s = 120 :: 156 :: r) -> (forall s, Forall byte_ok (comp s)) ->
-  (forall z s, decomp z = Some s -> sorted s = true) ->
-  forall d q idxs d', revoke_credentials comp decomp legacy_fixed d q idxs = Some d' ->
-  exists bm bm', resolve_bitmap decomp legacy_fixed d q = Some bm /\ resolve_bitmap decomp legacy_fixed d' q = Some bm'
+  forall zc zd, (forall b, Forall byte_ok b -> zd (zc b) = Some b) -> (forall b, Forall byte_ok b -> exists r, zc b = 120 :: 156 :: r) ->
+  (forall b, Forall byte_ok b -> Forall byte_ok (zc b)) -> (forall z b, zd z = Some b -> Forall byte_ok b) ->
+  forall d q idxs d', Forall (fun x => x < 4294967296) idxs -> revoke_credentials (comp_r zc) (decomp_r zd) legacy_fixed d q idxs = Some d' ->
+  exists bm bm', resolve_bitmap (decomp_r zd) legacy_fixed d q = Some bm /\ resolve_bitmap (decomp_r zd) legacy_fixed d' q = Some bm'
     /\ forall x, In x bm' <-> In x idxs \/ In x bm.
-Proof. exact revoke_exact. Qed.
+Proof. exact r_revoke_exact. Qed.
 Print Assumptions C06_revoke_exact.
 
 Theorem C06_unrevoke_exact :
-  forall comp decomp, (forall s, decomp (comp s) = Some s) -> (forall s, exists r, comp s = 120 :: 156 :: r) -> (forall s, Forall byte_ok (comp s)) ->
-  (forall z s, decomp z = Some s -> sorted s = true) ->
-  forall d q idxs d', unrevoke_credentials comp decomp legacy_fixed d q idxs = Some d' ->
-  exists bm bm', resolve_bitmap decomp legacy_fixed d q = Some bm /\ resolve_bitmap decomp legacy_fixed d' q = Some bm'
+  forall zc zd, (forall b, Forall byte_ok b -> zd (zc b) = Some b) -> (forall b, Forall byte_ok b -> exists r, zc b = 120 :: 156 :: r) ->
+  (forall b, Forall byte_ok b -> Forall byte_ok (zc b)) -> (forall z b, zd z = Some b -> Forall byte_ok b) ->
+  forall d q idxs d', unrevoke_credentials (comp_r zc) (decomp_r zd) legacy_fixed d q idxs = Some d' ->
+  exists bm bm', resolve_bitmap (decomp_r zd) legacy_fixed d q = Some bm /\ resolve_bitmap (decomp_r zd) legacy_fixed d' q = Some bm'
     /\ forall x, In x bm' <-> ~ In x idxs /\ In x bm.
-Proof. exact unrevoke_exact. Qed.
+Proof. exact r_unrevoke_exact. Qed.
 Print Assumptions C06_unrevoke_exact.
 
 (* the other services of the document are untouched, the set of service ids does not change *)
@@ -41,6 +63,14 @@ Theorem C06_update_frame :
   forall sv, In sv d -> qmatches q (bs_id sv) = false -> In sv d'.
 Proof. exact update_frame. Qed.
 Print Assumptions C06_update_frame.
+
+(* the assumptions about zlib can be met together (a stored stand-in): the statements above are not vacuous *)
+Theorem C06_assumptions_satisfiable :
+  (forall b, Forall byte_ok b -> toy_zd (toy_zc b) = Some b) /\ (forall b, Forall byte_ok b -> exists r, toy_zc b = 120 :: 156 :: r)
+  /\ (forall b, Forall byte_ok b -> Forall byte_ok (toy_zc b)) /\ (forall z b, toy_zd z = Some b -> Forall byte_ok b)
+  /\ forall id s, valid_set s -> try_from_service (decomp_r toy_zd) legacy_fixed (to_service (comp_r toy_zc) id s) = Some s.
+Proof. repeat split; [exact toy_z1|exact toy_z2|exact toy_z3|exact toy_z4|exact toy_service_roundtrip]. Qed.
+Print Assumptions C06_assumptions_satisfiable.
 
 (* the pinned tree rejected its own encodings whenever the text did not start with "eJy" (repaired; see KNOWN_FINDINGS fixed: C06) *)
 Theorem C06_pinned_roundtrip_refuted :
